@@ -281,7 +281,10 @@ PROPS = {
     "C17": {
         "title": "FIPS self-tests run exactly once under any interleaving; nobody passes early",
         "variant": "fips",
-        "ldflags": ["-Wl,--wrap=_aes_self_tests", "-Wl,--wrap=_sha_self_tests", "-Wl,--wrap=_sha1_ctx_mgr_init"],
+        "ldflags": ["-Wl,--wrap=_aes_self_tests", "-Wl,--wrap=_sha_self_tests", "-Wl,--wrap=_sha1_ctx_mgr_init", "-Wl,--wrap=usleep"],
+        # the second implementation of the protocol (aarch64 / base-alias builds): compiled from the tree next to the x86 one
+        "repo_c": [{"src": "fips/self_tests_generic.c", "defs": ["FIPS_MODE"], "globalize": {"self_tests_status": "c17g_status"},
+                    "rename": {"isal_self_tests": "c17g_isal_self_tests"}}],
         "quick": {"cases": 40000},
         "thorough": {"cases": 1500000, "opts": ["enum=1"], "budget_s": 5400},
         "technique": "property-based testing of schedules: deterministic instruction-level scheduler (x86 trap flag, logical threads as contexts in one OS thread), "
@@ -294,6 +297,8 @@ PROPS = {
                 "thread returns success, and the wrapped approved entry does not start its work, before the self tests have finished and the verdict is published; "
                 "all first and second calls return the same verdict (0 / ISAL_CRYPTO_ERR_SELF_TEST); every thread finishes within the step bound under the fair "
                 "tail. Non-trivial = at some step >=2 threads were inside asm_check_self_tests_status, or a loser reached the spin loop before the publish. "
+                "One case in four runs the same schedule kinds against fips/self_tests_generic.c instead (the C11-atomics implementation used by the aarch64 and "
+                "base-alias builds, compiled from the tree with -DFIPS_MODE, its usleep() wait a yield point). "
                 "One case in twelve is a parallel case instead: 2..6 real OS threads released together by a spin barrier with generated per-thread skews "
                 "(0..40 pause iterations, rotated each round), 20..400 rounds per case, every round from NOT_DONE, same oracle; non-trivial there = a round in which "
                 ">=2 threads read an unpublished status right before their call. "
